@@ -729,14 +729,86 @@ def rule_batch_order(res, rid, m):
                 res.check(is_addr and one, rid, "encode(%s):single" % tag, e.loc, "single packet: delegates the one-element range [&packet, &packet + 1) to the range overload",
                           "encode delegates to another overload but not with exactly the range [&packet, &packet + 1)")
                 continue
+            if len(e.params) >= 3 and len(puts) == 1:
+                # a range overload without a loop of its own: std::for_each(begin, end, [..](elem) { putPacket(elem); })
+                fe = [c for c in e.calls() if callee_name(c) == "std::for_each" and len(c.get("args", [])) == 3]
+
+                def unwrap0(x):
+                    x = strip_all_casts(x)
+                    for _ in range(6):
+                        if x.get("k") in ("construct", "temp") and len(x.get("args", [])) == 1:
+                            x = strip_all_casts(x["args"][0])
+                        else:
+                            break
+                    return x
+                if len(fe) != 1:
+                    raise Broken("encode(%s): range overload without a loop or a std::for_each" % tag)
+                a = fe[0]["args"]
+                lam = [x for x in walk(a[2]) if x.get("k") == "lambda"]
+                inlam = bool(lam) and any(y.get("id") == puts[0].get("id") for y in walk(lam[0].get("body", {})))
+                lp = {q["decl"] for q in lam[0].get("params", [])} if lam else set()
+                elem = inlam and bool(lp & {x.get("decl") for x in walk(puts[0]["args"][0]) if x.get("k") == "ref"})
+                okfe = unwrap0(a[0]).get("decl") == e.params[0]["decl"] and unwrap0(a[1]).get("decl") == e.params[1]["decl"] and inlam and elem
+                res.check(okfe, rid, "encode(%s):walks-the-batch" % tag, fe[0].get("loc"), "std::for_each over [begin, end) itself, one putPacket per element",
+                          "encode does not feed the packets to putPacket in batch order: std::for_each does not run over (begin, end) with the element handed to putPacket")
+                continue
             res.check(len(puts) == 1, rid, "encode(%s):single" % tag, e.loc, "single packet: one putPacket", "encode calls putPacket %d times" % len(puts))
             continue
         lb, ls = loops[0]
         inc = ls.get("inc")
         okinc = inc is not None and (strip(inc).get("op") in ("pre++", "post++") or (strip(inc).get("k") == "call" and strip(inc).get("op") == "++"))
         inloop = [c for c in puts if any(a.get("id") == ls["id"] for a in e.ancestors(c))]
+        if ls.get("k") == "rangefor":
+            okinc = True
         res.check(okinc and len(puts) == 1 and len(inloop) == 1, rid, "encode(%s):loop" % tag, ls.get("loc"),
                   "one forward pass, one putPacket per element", "encode does not call putPacket exactly once per element in forward order")
+        # what the loop walks is the caller's range itself, in its own order
+        if len(e.params) >= 2 and len(puts) == 1:
+            p0, p1 = e.params[0]["decl"], e.params[1]["decl"]
+
+            def unwrap(x):
+                x = strip_all_casts(x)
+                for _ in range(6):
+                    if x.get("k") in ("construct", "temp") and len(x.get("args", [])) == 1:
+                        x = strip_all_casts(x["args"][0])
+                    elif x.get("k") == "call" and callee_name(x) in ("std::move", "std::forward") and x.get("args"):
+                        x = strip_all_casts(x["args"][0])
+                    else:
+                        break
+                return x
+            why = None
+            known = False
+            if ls.get("k") == "for" and isinstance(ls.get("init"), dict) and ls["init"].get("k") == "decl" and len(ls["init"].get("vars", [])) == 1:
+                iv = ls["init"]["vars"][0]
+                cond = strip(ls.get("cond") or {})
+                ops = ([cond["obj"]] if "obj" in cond else []) + list(cond.get("args", [])) if cond.get("k") == "call" else [cond.get("l"), cond.get("r")]
+                ops = [unwrap(o) for o in ops if isinstance(o, dict)]
+                known = True
+                if unwrap(iv.get("init") or {}).get("decl") != p0:
+                    why = "the loop does not start at `begin`"
+                elif not (cond.get("op") == "!=" and {o.get("decl") for o in ops} == {iv["decl"], p1}):
+                    why = "the loop does not run until `end`"
+                elif iv["decl"] not in depends(e, puts[0]["args"][0])[0]:
+                    why = "the packet handed to putPacket is not the loop's current element"
+                elif any(lvalue_root(x["l"]) == iv["decl"] for x in walk(ls.get("body", {})) if x.get("k") in ("assign", "cassign")):
+                    why = "the iterator is modified inside the loop body"
+            elif ls.get("k") == "rangefor":
+                rng = unwrap(ls.get("range") or {})
+                if rng.get("k") == "ref" and rng.get("dk") == "local":
+                    ds = facts.local_defs(e).get(rng["decl"], [])
+                    d0 = strip_all_casts(ds[0]) if len(ds) == 1 else {}
+                    a = [unwrap(x) for x in d0.get("args", [])] if d0.get("k") == "construct" else []
+                    if len(a) >= 2 and a[0].get("decl") == p0 and a[1].get("decl") == p1:
+                        known = True
+                        others = [x for x in e.nodes() if x.get("k") == "ref" and x.get("decl") == rng["decl"] and x.get("id") != rng.get("id")]
+                        if others:
+                            why = "the copy of the batch the loop walks is also used at %s (sorted, filtered or otherwise rearranged before encoding)" % (others[0].get("loc") or "?")
+                        elif ls.get("var") not in depends(e, puts[0]["args"][0])[0]:
+                            why = "the packet handed to putPacket is not the loop's current element"
+            if not known:
+                raise Broken("encode(%s): the batch loop is neither `for (it = begin; it != end; ++it)` nor a range-for over a copy of [begin, end)" % tag)
+            res.check(why is None, rid, "encode(%s):walks-the-batch" % tag, ls.get("loc"), "the loop walks [begin, end) itself, front to back",
+                      "encode does not feed the packets to putPacket in batch order: %s" % why)
     for f, k, n in m.writes.get(m.frames, []):
         if not (isinstance(n, dict) and n.get("k") == "call" and strip_all_casts(n.get("obj", {})).get("field") == m.frames):
             continue  # element-level access (back().resize …) does not reorder frames
@@ -1398,13 +1470,13 @@ def rule_writes_inside_frame(res, rid, m):
     for what, fn, node in (("chunk", f, dst), ("header", m.header_writer, None)):
         if node is None:
             node = header_landing(m)[1]
-        e = facts.expand(fn, node)
+        e = facts.inline_accessors(m.fb, facts.expand(fn, node))  # (a `currentWritePosition()` helper stands for its expression)
         subs = [x for x in walk(e) if x.get("k") == "call" and (x.get("callee") or {}).get("nm") == "operator[]"]
         okpos = False
         for sub in subs:
             idx = strip_all_casts(sub["args"][0])
             if idx.get("k") == "bin" and idx.get("op") == "-" and (strip_all_casts(idx["l"]).get("callee") or {}).get("nm") == "size" and strip_all_casts(idx["r"]).get("field") == m.bytesLeft and \
-                    m.frames in depends(fn, sub["obj"])[0]:
+                    (m.frames in depends(fn, sub["obj"])[0] or m.frames in reads(sub["obj"])):
                 okpos = True
         res.check(okpos, rid, "%s:position" % what, node.get("loc") if isinstance(node, dict) else fn.loc, "%s written at frame[size() - free]" % what,
                   "the %s is not written at frame[size() - free bytes]" % what)
